@@ -10,10 +10,10 @@ def run(rep, tier):
     cfgs = ["x86"] if tier == "quick" else ["x86", "x86-rayon", "arm"]
     for cfg, prog in programs(cfgs):
         rep.set_cfg(cfg)
-        validators.crop_f64(rep, prog, "C04.crop-f64")
-        validators.crop_u32(rep, prog, "C04.crop-u32")
-        validators.buffer_validators(rep, prog, "C04.buffers")
-        validators.constructors_validate(rep, prog, "C04.constructors")
+        rep.call(validators.crop_f64, rep, prog, "C04.crop-f64")
+        rep.call(validators.crop_u32, rep, prog, "C04.crop-u32")
+        rep.call(validators.buffer_validators, rep, prog, "C04.buffers")
+        rep.call(validators.constructors_validate, rep, prog, "C04.constructors")
         n = c03.arith(rep, prog, "C04.arith", only=lambda f: any(
             f.file == s or f.file.startswith(s) for s in VALIDATOR_FILES))
         rep.floor("C04.arith", "arithmetic asserts in validators/containers", n, 30)
